@@ -12,7 +12,7 @@ import (
 func init() {
 	register(&Spec{ID: "C03", Title: "Each response is delimited by exactly one final DONE and fully drained", Run: runC03,
 		Meta: core.Meta{
-			Explanation: "Structural necessary conditions of response delimiting, decided on SSA. R03.1: every test of 'final DONE' in package tds (outside Login, which is C08's) is an exact comparison of DonePackage.Status with TDS_DONE_FINAL; a mask test against the zero-valued constant is recognised as constant-false; isDoneFinal answers true only for an asserted *DonePackage whose Status equals TDS_DONE_FINAL. R03.2: the synthetic DONE(FINAL) in tryParsePackage is sent only when the token read failed, the queue is at EOM and the last delivered package is not a DONE with Status == FINAL (path condition), the function then returns false, and WritePacket resets the rx queue on the EOM edge of a failed attempt; every delivery `packageCh <- pkg` is followed on all paths by lastPkgRx = pkg. R03.3: in NextPackageUntil every path from a callback error to a return either compares the error for identity with io.EOF (the documented multi-result-set shortcut; errors.Is would also swallow wrapped EOFs), or has isDoneFinal(pkg) true, or passes the draining recursive call NextPackageUntil(ctx, wait, nil); in nil-callback mode every return is dominated by isDoneFinal being true or follows the recursive call whose callback is isDoneFinal. R03.5 = R02.4 (AddPacket sets recvEOM exactly under Status&TDS_BUFSTAT_EOM == TDS_BUFSTAT_EOM, a mask test: the EOM packet of a response may carry further status bits). R03.6: every error return of NextPackage other than the closed-channel one is dominated by the non-blocking receive from packageCh, so a drain running under an ended context still empties what was received. R03.7 = R07.1/R02.5: every wire read in every parser reports a short read as ErrNotEnoughBytes (matched by errors.Is); any other error for a package that is merely cut by a packet boundary is queued on errCh in the middle of a response, and the tail of that response is then read as the start of the next one. R03.4: Reset restores the tx side (header type, tx queue, lastPkgTx) and SendRemainingPackets runs it on every exit after the closed check.",
+			Explanation: "Structural necessary conditions of response delimiting, decided on SSA. R03.1: every test of 'final DONE' in package tds (outside Login, which is C08's) is an exact comparison of DonePackage.Status with TDS_DONE_FINAL; a mask test against the zero-valued constant is recognised as constant-false; isDoneFinal answers true only for an asserted *DonePackage whose Status equals TDS_DONE_FINAL. R03.2: the synthetic DONE(FINAL) in tryParsePackage is sent only when the token read failed, the queue is at EOM and the last delivered package is not a DONE with Status == FINAL (path condition), the function then returns false, and WritePacket resets the rx queue on the EOM edge of a failed attempt; every delivery `packageCh <- pkg` is followed on all paths by lastPkgRx = pkg. R03.3: in NextPackageUntil every path from a callback error to a return either compares the error for identity with io.EOF (the documented multi-result-set shortcut; errors.Is would also swallow wrapped EOFs), or has isDoneFinal(pkg) true, or passes the draining recursive call NextPackageUntil(ctx, wait, nil); in nil-callback mode every return is dominated by isDoneFinal being true or follows the recursive call whose callback is isDoneFinal. R03.5 = R02.4 (AddPacket sets recvEOM exactly under Status&TDS_BUFSTAT_EOM == TDS_BUFSTAT_EOM, a mask test: the EOM packet of a response may carry further status bits). R03.6: every error return of NextPackage other than the closed-channel one is dominated by the non-blocking receive from packageCh, so a drain running under an ended context still empties what was received. R03.7 = R07.1/R02.5: every wire read in every parser reports a short read as ErrNotEnoughBytes (matched by errors.Is); any other error for a package that is merely cut by a packet boundary is queued on errCh in the middle of a response, and the tail of that response is then read as the start of the next one. R03.8 = R02.7 (once a package of the response was consumed, an EED included, every further receive waits: a poll that gives up mid-response leaves its tail for the next request). R03.9 = R02.11 (the tx-side reset after a send must not touch the receive queue: the first packet of the response may already be in it). R03.4: Reset restores the tx side (header type, tx queue, lastPkgTx) and SendRemainingPackets runs it on every exit after the closed check.",
 			NotDecided:  "That the first package after the next request belongs to the next response depends on the history of lastPkgRx and is not decided; EED interleavings and packetisations are not explored.",
 			Assumptions: []string{"the reader goroutine is the only caller of tryParsePackage (checked: one call site)"},
 		}})
@@ -30,6 +30,10 @@ func runC03(r *core.Run) {
 	r.Rule("R03.7", "a package cut by a packet boundary is retried, not reported: every short read is ErrNotEnoughBytes (E-ERR, all call sites)", 213, true)
 	defer func() { errSites(r, newErrFlow(p), "R03.7") }()
 	defer c03QueuedFirst(r)
+	r.Rule("R03.8", "NextPackageUntil waits for every package after the first (R02.7)", 1, false)
+	defer c02WaitAfterFirst(r, "R03.8")
+	r.Rule("R03.9", "only the reader goroutine touches the receive queue (R02.11)", 1, false)
+	defer rxOwnership(r, "R03.9")
 
 	fDoneStatus := p.Field("tds", "DonePackage", "Status")
 	cFinal := constOf(p, "tds", "TDS_DONE_FINAL")
@@ -64,7 +68,7 @@ func runC03(r *core.Run) {
 		}
 	}
 	c03IsDoneFinal(r, fDoneStatus)
-	c03Synthetic(r, fDoneStatus)
+	c03Synthetic(r, fDoneStatus, "R03.2")
 	c03Drain(r)
 	c03Reset(r, "R03.4")
 }
@@ -125,7 +129,7 @@ func c03IsDoneFinal(r *core.Run, fDoneStatus *types.Var) {
 	r.Check(ok, "R03.1", key, fn.Pos(), "true only under the *DonePackage assertion and Status == TDS_DONE_FINAL", why)
 }
 
-func c03Synthetic(r *core.Run, fDoneStatus *types.Var) {
+func c03Synthetic(r *core.Run, fDoneStatus *types.Var, rule string) {
 	p := r.Prog
 	fn := p.Func("tds", "Channel", "tryParsePackage")
 	fPackageCh := p.Field("tds", "Channel", "packageCh")
@@ -173,7 +177,7 @@ func c03Synthetic(r *core.Run, fDoneStatus *types.Var) {
 		collect(h, c)
 	}
 	if len(synth) == 0 {
-		r.Bad("R03.2", "tryParsePackage: synthetic DONE", fn.Pos(), "no send of a freshly built DonePackage found: a response whose last DONE is not final (or missing) is never terminated for the consumer")
+		r.Bad(rule, "tryParsePackage: synthetic DONE", fn.Pos(), "no send of a freshly built DonePackage found: a response whose last DONE is not final (or missing) is never terminated for the consumer")
 	}
 	for _, s := range synth {
 		al := core.Strip(s.X).(*ssa.Alloc)
@@ -189,7 +193,7 @@ func c03Synthetic(r *core.Run, fDoneStatus *types.Var) {
 				}
 			}
 		}
-		r.Check(statusOK, "R03.2", "tryParsePackage: synthetic DONE has Status FINAL", s.Pos(), "literal &DonePackage{Status: TDS_DONE_FINAL}", "the synthesised DONE does not carry exactly TDS_DONE_FINAL")
+		r.Check(statusOK, rule, "tryParsePackage: synthetic DONE has Status FINAL", s.Pos(), "literal &DonePackage{Status: TDS_DONE_FINAL}", "the synthesised DONE does not carry exactly TDS_DONE_FINAL")
 
 		// path condition
 		bad := ""
@@ -261,7 +265,7 @@ func c03Synthetic(r *core.Run, fDoneStatus *types.Var) {
 				bad = "the synthetic DONE can be sent although the last delivered package already was a DONE with Status == FINAL: the consumer sees two final DONEs"
 			}
 		}
-		r.Check(bad == "", "R03.2", "tryParsePackage: synthetic DONE path condition", s.Pos(), "every path to the send has: token read failed ∧ IsEOM ∧ last package not DONE(FINAL)", bad)
+		r.Check(bad == "", rule, "tryParsePackage: synthetic DONE path condition", s.Pos(), "every path to the send has: token read failed ∧ IsEOM ∧ last package not DONE(FINAL)", bad)
 		// after the send the function returns false
 		retFalse := true
 		after := s.Block()
@@ -276,7 +280,7 @@ func c03Synthetic(r *core.Run, fDoneStatus *types.Var) {
 				}
 			}
 		}
-		r.Check(retFalse, "R03.2", "tryParsePackage: returns false after the synthetic DONE", s.Pos(), "the attempt is reported as failed, WritePacket resets the queue", "after synthesising the final DONE the function reports a parsed package")
+		r.Check(retFalse, rule, "tryParsePackage: returns false after the synthetic DONE", s.Pos(), "the attempt is reported as failed, WritePacket resets the queue", "after synthesising the final DONE the function reports a parsed package")
 	}
 	// every delivery is followed by lastPkgRx = pkg on all paths
 	for _, s := range deliver {
@@ -299,10 +303,10 @@ func c03Synthetic(r *core.Run, fDoneStatus *types.Var) {
 				okAll = false
 			}
 		})
-		r.Check(okAll, "R03.2", "tryParsePackage: lastPkgRx = pkg after delivery", s.Pos(), "every delivered package becomes lastPkgRx", "a package can be delivered without becoming lastPkgRx: the end-of-message logic then judges the response by a stale package (e.g. suppresses the synthetic final DONE because of the previous response's DONE)")
+		r.Check(okAll, rule, "tryParsePackage: lastPkgRx = pkg after delivery", s.Pos(), "every delivered package becomes lastPkgRx", "a package can be delivered without becoming lastPkgRx: the end-of-message logic then judges the response by a stale package (e.g. suppresses the synthetic final DONE because of the previous response's DONE)")
 	}
 	if len(deliver) == 0 {
-		r.Unknown("R03.2", "tryParsePackage: delivery", fn.Pos(), "no delivery send found")
+		r.Unknown(rule, "tryParsePackage: delivery", fn.Pos(), "no delivery send found")
 	}
 
 	// WritePacket: failed attempt at EOM resets the rx queue
@@ -316,7 +320,7 @@ func c03Synthetic(r *core.Run, fDoneStatus *types.Var) {
 			}
 		}
 	}
-	r.Check(okReset, "R03.2", "WritePacket: rx queue reset at EOM", wp.Pos(), "queueRx.Reset() on the IsEOM edge of a failed attempt", "the rx queue is not reset when a message ended: the EOM flag survives into the next response and a second synthetic DONE can be emitted")
+	r.Check(okReset, rule, "WritePacket: rx queue reset at EOM", wp.Pos(), "queueRx.Reset() on the IsEOM edge of a failed attempt", "the rx queue is not reset when a message ended: the EOM flag survives into the next response and a second synthetic DONE can be emitted")
 }
 
 func dominatedRegionOrSelf(b *ssa.BasicBlock) map[*ssa.BasicBlock]bool { return dominatedRegion(b) }
